@@ -336,6 +336,32 @@ def r5_watch_paths(r, facts):
             r.inst('join(%s, %s)' % (str(base)[:70], str(name)[:50]), g.where(joins[0][0]))
             r.require(any(x[0] == 'call' and x[1].endswith('::get') for x in subexprs(base)), 'path_for/base', 'the full path does not start with the watched entry looked up for this event', g.where(joins[0][0]))
             r.require(any(x[0] == 'call' and x[1].endswith('Event::file_path') and x[2] and x[2][0][0] == 'arg' and x[2][0][1] == 2 for x in subexprs(name)), 'path_for/name', 'the joined component is not this event\'s file name', g.where(joins[0][0]))
+    # who may change the table: entries come (insert) when the kernel accepted a watch and go (remove, keyed by the wd of an
+    # IN_IGNORED record — R3) when the kernel says so; nothing else edits it (no retain/clear/drain/.. by path or wholesale:
+    # a still-live wd would lose its path)
+    MUTATORS = ('retain', 'clear', 'drain', 'extract_if', 'get_mut', 'entry', 'values_mut', 'iter_mut', 'remove_entry', 'get_many_mut',
+                'get_disjoint_mut', 'extend', 'try_insert', 'raw_entry_mut')
+    n_w = 0
+    table_tys = {re.sub(r"^&('\w+ )?(mut )?", '', fl['ty']) for a in facts.adts.values() for v in a['variants'] for fl in v['fields'] if fl['name'] == 'watching' and 'HashMap' in fl['ty']}
+    r.require(len(table_tys) == 1, 'watching/type', 'the wd -> path table (a HashMap field `watching`) was not found: %s' % sorted(table_tys), f.where())
+    for h in facts.func_list:
+        eh = None
+        for l, t in h.calls():
+            c = t.get('callee') or ''
+            if 'HashMap' not in c or not t['args'] or h.blocks[l[0]]['cleanup']:
+                continue
+            # the table is the one map from watch descriptors to paths (field `watching`, passed around by reference)
+            ty0 = re.sub(r"^&('\w+ )?(mut )?", '', t['args'][0].get('ty') or '')
+            on_table = ty0 in table_tys
+            if not on_table:
+                continue
+            n_w += 1
+            meth = re.sub(r'<.*?>', '', c).rsplit('::', 1)[-1]
+            r.require(meth not in MUTATORS, 'watching/%s' % meth, 'the wd -> path table is edited by `%s` in %s: entries may only be added for a watch the kernel accepted and removed for the wd of an IN_IGNORED record (a live watch descriptor would lose, or get another, path)' % (meth, h.path), h.where(l))
+            if meth == 'insert':
+                r.require(h.path in ('inotify::watch',), 'watching/insert-site', 'an entry is added to the wd -> path table outside inotify::watch (%s)' % h.path, h.where(l))
+    r.inst('uses of the wd -> path table checked: %d' % n_w, f.where())
+    r.require(n_w >= 3, 'watching/uses', 'fewer than 3 uses of the wd -> path table found (insert / remove / get expected)', f.where())
     r.floor(2)
 
 
